@@ -21,14 +21,14 @@ var commonAssume = []string{
 }
 
 var Metas = map[string]Meta{
-	"C01": {Category: "exploration", Rule: "every 200th run index is a length sweep (same setting and data for 400 (thorough 1200) consecutive input lengths); otherwise one run = one Writer history (constructor, level, window, dict, data spec, Write/Flush partition, Close) into an accepting simulated sink; non-trivial = constructor accepted and at least one byte written; distinct = distinct schedule signature (sequence of op kinds, sink-call size buckets and outcomes)"},
+	"C01": {Category: "exploration", Rule: "every 197th run index is a length sweep (same setting and data for 400 (thorough 1200) consecutive input lengths); otherwise one run = one Writer history (constructor, level, window, dict, data spec, Write/Flush partition, Close) into an accepting simulated sink; non-trivial = constructor accepted and at least one byte written; distinct = distinct schedule signature (sequence of op kinds, sink-call size buckets and outcomes)"},
 	"C09": {Category: "exploration", Rule: "one run = two Writers fed the same data and Flush positions with different Write partitions; non-trivial = the two partitions differ and data is non-empty; distinct = distinct schedule signature of the first history"},
-	"C10": {Category: "exploration", Rule: "one run = one Writer history with the prefix invariant evaluated at every acknowledged Flush; non-trivial = at least one Flush returned nil; distinct = distinct schedule signature"},
+	"C10": {Category: "exploration", Rule: "every 199th run index is a length sweep (Write(L), Flush, Close for 300 (thorough 600) consecutive L); otherwise one run = one Writer history with the prefix invariant evaluated at every acknowledged Flush; non-trivial = at least one Flush returned nil; distinct = distinct schedule signature"},
 	"C12": {Category: "exploration", Rule: "one run = history h1 (possibly abandoned, failed, closed), Reset, history h2, compared with a fresh Writer running h2; non-trivial = h1 wrote at least one byte; distinct = distinct schedule signature"},
 	"C14": {Category: "fault_enumeration", Rule: "for each sampled workload the sink fails at call k for every k (thorough, and quick when the fault-free run makes <= 64 calls; otherwise first/last 8 and a stratified sample); one evaluation = one (workload, k) run; non-trivial = the injected fault actually fired; distinct = distinct schedule signature"},
 	"C16": {Category: "exploration", Rule: "all histories over {Write(0), Write(small), Write(70000), Flush, Close, Reset} up to length 4 (5 thorough), the constructor level table -4..11, then random histories up to length 40, each in lock-step with the stdlib Writer; non-trivial = more than one operation; distinct = distinct schedule signature"},
 	"C02": {Category: "exploration", Rule: "one run = one stream accepted by compress/flate (stdlib or fastgo encoder history, or block synthesiser) read through a drawn source kind, delivery schedule and Read-size schedule; non-trivial = stdlib accepts and the output is non-empty; distinct = distinct schedule signature (source refill sizes/outcomes, result)"},
-	"C03": {Category: "exploration", Rule: "one run = one malformed/truncated/random input (planted structural fault, blind mutation, truncation; every 16th (thorough: 64th) run index sweeps the truncation point over every byte of a small valid stream) on a fresh or reused Reader; non-trivial = non-empty input; distinct = distinct schedule signature"},
+	"C03": {Category: "exploration", Rule: "one run = one malformed/truncated/random input (planted structural fault, blind mutation, truncation; every 17th (thorough: 67th) run index sweeps the truncation point over every byte of a small valid stream) on a fresh or reused Reader; non-trivial = non-empty input; distinct = distinct schedule signature"},
 	"C04": {Category: "exploration", Rule: "one run = one valid or truncated stream read all-at-once and under 8 (12 thorough) delivery/Read-size schedules, three of them aimed at a block header or block end; one evaluation = one schedule; non-trivial = non-empty input; distinct = distinct schedule signature"},
 	"C05": {Category: "exploration", Rule: "one run = valid stream/container followed by a suffix, read to io.EOF through a source kind and constructor; non-trivial = non-empty suffix; distinct = distinct schedule signature"},
 	"C06": {Category: "exploration", Rule: "one run = one gzip/zlib Writer history (header fields, level, partition, Reset reuse) executed by fastgo and by the stdlib Writer; every cleanly closed container is read by the opposite implementation; non-trivial = at least one byte written; distinct = distinct schedule signature"},
